@@ -178,6 +178,7 @@ _WRAPPED = False
 _CALLS = None
 _UPDATES = None
 _GENLOG = None
+_ABBR = None
 _IDS = None
 _ALIVE = None
 
@@ -292,6 +293,26 @@ def _wrap():
         return res
 
     CodeRecord._statement_to_nodes = _statement_to_nodes
+
+    from pharmpy.model.external.nonmem import update as upd
+    real_abbr = upd.update_abbr_record
+
+    def update_abbr_record(model, rv_trans):
+        recs = model.internals.control_stream.get_records('ABBREVIATED')
+        rmaps = [[list(kv) for kv in rec.translate_to_pharmpy_names().items()] for rec in recs]
+        rv = [list(kv) for kv in rv_trans.items()] if rv_trans else []
+        res = real_abbr(model, rv_trans)
+        if _ABBR is not None:
+            after = res[0].internals.control_stream.records
+            kept = [i + 1 for i, rec in enumerate(recs) if any(rec is r for r in after)]
+            new = []
+            for r in after:
+                if r.name == 'ABBREVIATED' and not any(r is rec for rec in recs):
+                    new += [list(kv) for kv in r.replaceopt.items()]
+            _ABBR.append({'recs': rmaps, 'rv': rv, 'kept': kept, 'new': new})
+        return res
+
+    upd.update_abbr_record = update_abbr_record
     CodeRecord.update_statements = update_statements
     _WRAPPED = True
 
@@ -414,7 +435,7 @@ def _history_step(cur, op, pos, k):
 
 def run_spec(args):
     """Executed in a worker process.  args = (index, spec, directory)."""
-    global _CALLS, _IDS, _ALIVE, _UPDATES, _GENLOG
+    global _CALLS, _IDS, _ALIVE, _UPDATES, _GENLOG, _ABBR
     import warnings
     warnings.filterwarnings('ignore')
     idx, spec, workdir = args
@@ -442,17 +463,17 @@ def run_spec(args):
         out['read_ok'] = True
         out['code_eq'] = (m.code == spec['text'])
         out['before'] = before
-        _CALLS, _UPDATES = [], []
+        _CALLS, _UPDATES, _ABBR = [], [], []
         try:
             m_us = m.update_source()
             out['us'] = {'after': _records_of(m_us), 'calls': _CALLS, 'updates': _UPDATES, 'exc': None,
-                         'sizes_in': _sizes_in(m_us), 'reread': True}
+                         'sizes_in': _sizes_in(m_us), 'reread': True, 'abbr': _ABBR}
         except Exception as e:
             out['us'] = {'after': None, 'calls': _CALLS, 'updates': _UPDATES, 'exc': f'{type(e).__name__}: {str(e)[:200]}',
-                         'sizes_in': None, 'reread': True}
+                         'sizes_in': None, 'reread': True, 'abbr': _ABBR}
         out['edits'] = []
         for name, k in spec['edits']:
-            _CALLS, _UPDATES = [], []
+            _CALLS, _UPDATES, _ABBR = [], [], []
             sizes_in = None
             try:
                 m2 = _apply(m, name, k)
@@ -462,19 +483,20 @@ def run_spec(args):
             except Exception as e:
                 after, exc = None, f'{type(e).__name__}: {str(e)[:200]}'
             out['edits'].append({'name': name, 'allowed': EDITS[name], 'after': after, 'calls': _CALLS,
-                                 'updates': _UPDATES, 'exc': exc, 'sizes_in': sizes_in, 'reread': True})
+                                 'updates': _UPDATES, 'exc': exc, 'sizes_in': sizes_in, 'reread': True, 'abbr': _ABBR})
         # a history: every step edits the statements of the result of the previous step
         out['history'] = []
         cur = m
         for op, pos, k in spec.get('history', []):
-            _CALLS, _UPDATES = [], []
+            _CALLS, _UPDATES, _ABBR = [], [], []
             sizes_in, reread = None, True
+            abbr = _ABBR
             try:
                 nxt = _history_step(cur, op, pos, k)
                 after = _records_of(nxt)
                 sizes_in = _sizes_in(nxt)
                 calls, updates = _CALLS, _UPDATES
-                _CALLS, _UPDATES = None, None
+                _CALLS, _UPDATES, _ABBR = None, None, None
                 reread = _reread_ok(nxt)
                 cur = nxt
                 exc = None
@@ -482,8 +504,8 @@ def run_spec(args):
                 calls, updates = (_CALLS or []), (_UPDATES or [])
                 after, exc = None, f'{type(e).__name__}: {str(e)[:200]}'
             out['history'].append({'name': f'history:{op}', 'allowed': CODE_KINDS, 'after': after, 'calls': calls,
-                                   'updates': updates, 'exc': exc, 'sizes_in': sizes_in, 'reread': reread})
-        _CALLS, _UPDATES = None, None
+                                   'updates': updates, 'exc': exc, 'sizes_in': sizes_in, 'reread': reread, 'abbr': abbr})
+        _CALLS, _UPDATES, _ABBR = None, None, None
     except Exception:
         out['harness_error'] = traceback.format_exc()[-800:]
     return out
